@@ -13,7 +13,7 @@ def run_cases(args):
     sp.sedpack()
     out = []
     for a in args:
-        recs, create = T.run_history(__import__("pathlib").Path(a["root"]), a["fmt"], a["eps"], a["hist"])
+        recs, create = T.run_history(__import__("pathlib").Path(a["root"]), a["fmt"], a["eps"], a["hist"], hashes=a.get("hashes", ["sha256"]))
         out.append({"case": {k: a[k] for k in a if k != "root"}, "recs": recs, "create": create})
         shutil.rmtree(a["root"], ignore_errors=True)
     return out
@@ -25,7 +25,9 @@ def gen(ctx, label):
     for i in range(ctx.pick(10, 60)):
         eps = rng.choice([1, 2, 3])
         hist = T.gen_history(rng, rng.choice([1, 2, 3, 4, 6] if not ctx.thorough else [2, 4, 6, 9, 12]), eps)
-        cases.append({"root": str(ctx.scratch / f"{label}_{i}"), "fmt": ["fb", "npz", "tfrec"][i % 3], "eps": eps, "hist": hist})
+        cases.append({"root": str(ctx.scratch / f"{label}_{i}"), "fmt": ["fb", "npz", "tfrec"][i % 3], "eps": eps, "hist": hist,
+                      # no checksum algorithm at all is a supported configuration
+                      "hashes": [["sha256"], [], ["md5", "xxh32"]][(i // 3) % 3]})
     # corpus: directed histories
     directed = [
         [{"kind": "filler", "sub": "a", "writes": [[0, 3]], "reopen": False}, {"kind": "filler", "sub": "a", "writes": [[0, 2]], "reopen": False}],
@@ -37,8 +39,17 @@ def gen(ctx, label):
         [{"kind": "filler", "sub": "a", "writes": [[0, 2]], "reopen": False}, {"kind": "filler", "sub": "a/y", "writes": [[0, 2]], "reopen": False},
          {"kind": "filler", "sub": "b/y/q", "writes": [[0, 1], [1, 2]], "reopen": False}],
     ]
+    directed += [
+        # several sessions into the root of one split, without any checksum algorithm
+        [{"kind": "filler", "sub": ".", "writes": [[0, 3]], "reopen": False}, {"kind": "filler", "sub": ".", "writes": [[0, 2]], "reopen": False},
+         {"kind": "filler", "sub": ".", "writes": [[0, 4]], "reopen": True}],
+        # a sub-directory named like another split
+        [{"kind": "filler", "sub": ".", "writes": [[0, 3], [1, 2]], "reopen": False}, {"kind": "filler", "sub": "train", "writes": [[1, 3]], "reopen": False},
+         {"kind": "filler", "sub": "test", "writes": [[2, 2]], "reopen": True}],
+    ]
     for j, h in enumerate(directed):
-        cases.insert(0, {"root": str(ctx.scratch / f"{label}_d{j}"), "fmt": ["fb", "npz", "tfrec"][j % 3], "eps": 2, "hist": h})
+        cases.insert(0, {"root": str(ctx.scratch / f"{label}_d{j}"), "fmt": ["fb", "npz", "tfrec"][j % 3], "eps": 2, "hist": h,
+                         "hashes": [] if j >= 5 and j % 2 == 1 else ["sha256"]})
     return cases
 
 
